@@ -342,8 +342,8 @@ def plan(tier, seed):
         configs.append(("H9", "switch", 1, None))
         configs.append(("H4", CALLS, 2, None))
         configs.append(("H10", FORMAT_LINES, 3, None))
-        configs.append(("H11", MESSAGE_LINES, 2, None))
-        configs.append(("H12", CALLS, 1, None))
+        configs.append(("H11", MESSAGE_LINES, 3, None))
+        configs.append(("H12", CALLS_FEW, 1, None))
         configs.append(("H10", "line", 1, None))
     items = []
     meta = {"configs": [], "exhaustive": True}
